@@ -468,10 +468,12 @@ func (r *beRun) exec(ci, oi int, op *BEOp) *beRec {
 			rec.n, rec.err = r.bk.dump(fw)
 			e.out.fault("dump_writer_err")
 		case "dump":
-			var buf bytes.Buffer
+			// the destination consumes every Write progressively, with a scheduling point in the middle (a pipe, a
+			// socket): whatever the slice it was given aliases must stay untouched until Write returns
+			var buf progressiveBuffer
 
 			rec.n, rec.err = r.bk.dump(&buf)
-			rec.dump = buf.Bytes()
+			rec.dump = buf.b
 		case "restore":
 			rec.n, rec.err = r.bk.restore(bytes.NewReader(r.setupDump))
 		case "load":
@@ -506,6 +508,23 @@ func (r *beRun) exec(ci, oi int, op *BEOp) *beRec {
 	}
 
 	return rec
+}
+
+type progressiveBuffer struct{ b []byte }
+
+func (w *progressiveBuffer) Write(p []byte) (int, error) {
+	const parts = 8
+
+	for i := 0; i < parts; i++ {
+		lo, hi := len(p)*i/parts, len(p)*(i+1)/parts
+		w.b = append(w.b, p[lo:hi]...)
+
+		if i < parts-1 {
+			zs.YieldFine("dump.write")
+		}
+	}
+
+	return len(p), nil
 }
 
 var errWalkStop = errors.New("walk callback failed (injected)")
